@@ -191,6 +191,24 @@ def regen_schema():
     return False
 
 
+def regen_consts():
+    """Regenerate coq/gen/Consts_gen.v from the SOURCE TEXT of the tree under test (dispatch tables, header columns, layouts:
+    driver/srcconsts.py); SRC.v proves the models' constants equal to it."""
+    import srcconsts
+    try:
+        out = srcconsts.render(srcconsts.extract(REPO)) + "\n"
+    except Exception as e:            # a source the extractor cannot read any more: SRC.v will not check against an empty table
+        out = "(* extraction failed: %s *)\n" % str(e).replace("*)", "* )")
+    path = os.path.join(GEN, "Consts_gen.v")
+    old = open(path).read() if os.path.exists(path) else None
+    if old != out:
+        if ALT:
+            return "differs"
+        open(path, "w").write(out)
+        return True
+    return False
+
+
 def build_harness():
     """go build the harness against /repo's working tree (tag verif)."""
     hdir = harness_dir()
@@ -333,6 +351,8 @@ class Check:
         self.schema_changed = regen_schema()
         if self.schema_changed == "differs":
             self.broken.append("the struct tags dumped from this tree differ from coq/gen/Schema_gen.v (scratch worktree: the shared development is not rebuilt)")
+        if regen_consts() == "differs":
+            self.broken.append("the dispatch tables / header columns / layouts read from this tree's source text differ from coq/gen/Consts_gen.v, against which SRC.v proves the models' constants (scratch worktree: the shared development is not rebuilt)")
         rc, out = coq_make()
         self.make_ok = (rc == 0)
         self.make_out = out
